@@ -438,6 +438,31 @@ def check_transition(history, op, names):
             old, old_problems = probe(dl, uni) if op[0] != "h_pickle" else (pre, [])
             if old != pre or old_problems:
                 add("source_of_new_handle_changed", str(old_problems[:3]))
+    if not op[0].startswith("h_"):
+        # handles derived from a list before it is edited (copy, constructor, slice, query) are lists of their own:
+        # editing the source must not show in them, and editing a derived handle must not show in the source
+        for direction in ("source_edited", "derived_edited"):
+            dl_b, uni_b = build(history, names)
+            derived = [("copy.copy", copy.copy(dl_b)), ("constructor", type(dl_b)(dl_b)), ("slice", dl_b[:]),
+                       ("query", dl_b.query(lambda x: True))]
+            if direction == "source_edited":
+                try:
+                    apply_impl(dl_b, uni_b, op)
+                except Exception:
+                    pass
+                for hname, h in derived:
+                    got, pr = probe(h, uni_b)
+                    if got != pre or pr:
+                        add("derived_handle_changed_by_editing_its_source", f"{hname}: {got} {pr[:2]}")
+            else:
+                for hname, h in derived[:2]:
+                    try:
+                        apply_impl(h, uni_b, op)
+                    except Exception:
+                        pass
+                got, pr = probe(dl_b, uni_b)
+                if got != pre or pr:
+                    add("source_changed_by_editing_a_derived_handle", f"{got} {pr[:2]}")
     outcome = ("raise" if raised else "ok", ref[0])
     return (post if not viol else None), not viol, viol, outcome
 
